@@ -84,8 +84,10 @@ SEP_REL_VALID = 1e-6   # separated, valid witness points: certified bracket widt
 SEP_REL_LOOSE = 5e-3   # separated, witness points that had to be shrunk into the geoms (solver's own precision loss)
 SEP_REL_BELOW = 1e-4   # a reported distance may not be below a certified lower bound by more than this
 SEP_ABS = 1e-5         # 10 x ccd_tolerance
-PEN_REL = 5e-2         # penetrating: overlap along the reported normal minus reported depth (EPA's own accuracy: see report)
+PEN_REL = 0.15         # penetrating: overlap along the reported normal minus reported depth (gross normal errors only: the
+                       # normals of the unmodified EPA are off by up to 3e-2 of the scale)
 PEN_ABS = 2e-5
+LOW_REL = 4e-3         # penetrating: best searched overlap (incl. the reported normal) minus reported depth: depth not too small
 REF_REL = 2e-4         # a searched direction must not beat the reported depth by more than this
 REF_ABS = 2e-5
 TOUCH_REL = 5e-3       # "distance 0" / "no contact" answers
@@ -292,7 +294,7 @@ def gen_pair(rng, k1, k2, regime=None):
 
 def gen_pairs(ctx):
     rng = ctx.rng
-    n = 26000 if ctx.tier == "thorough" else 1100
+    n = 20000 if ctx.tier == "thorough" else 1100
     cases = []
     combos = [(a, b) for a in KINDS for b in KINDS]
     for i in range(n):
@@ -822,9 +824,10 @@ def oracle_pairs(ctx, impl, drv, cases, stats=None):
                 depth = -c.dist
                 ln = norm(sub(c.x2, c.x1)) if c.x1 is not None else depth
                 t = PEN_REL * sc + PEN_ABS
-                if tiny and okp and abs(depth - ln) <= t and depth - ov <= REF_REL * sc + REF_ABS:
+                good = okp and abs(depth - ln) <= t and depth - ov <= REF_REL * sc + REF_ABS and ov - depth <= LOW_REL * sc + PEN_ABS
+                if tiny and good:
                     continue
-                if tiny and not (okp and abs(depth - ln) <= t and depth - ov <= REF_REL * sc + REF_ABS):
+                if tiny and not good:
                     bump(cnt, "tiny-distance-fallback")
                     touching(c)
                     continue
@@ -833,11 +836,18 @@ def oracle_pairs(ctx, impl, drv, cases, stats=None):
                 rel("pen_normal_gap/scale", (bound - depth) / sc, who)
                 rel("pen_|depth-len|/tolerance", abs(depth - ln) / t, who)
                 rel("pen_(depth-searched_overlap)/tolerance", exc / (REF_REL * sc + REF_ABS), who)
+                rel("pen_(searched_overlap-depth)/scale", -exc / sc, who)
+                rel("pen_(searched_overlap-depth)/scale:%s" % ("box-box" if c.ga.kind == c.gb.kind == "box" else "other pairs"), -exc / sc, who)
                 ovc = ov
                 if exc > REF_REL * sc + REF_ABS:
                     fail("c15:epa-depth-for-touching-geoms" if abs(ov) <= t_touch else "c15:reported-depth-exceeds-true-depth",
                          "reported depth %.17g, but along the searched direction the overlap is only %.17g (Lean-evaluated, Props "
                          "reported_depth_refuted): the true depth is smaller by >= %.3g (tolerance %.3g)" % (depth, ovc, exc, REF_REL * sc + REF_ABS), c)
+                elif -exc > LOW_REL * sc + PEN_ABS:
+                    fail("c15:box-box-depth-underestimated" if c.ga.kind == c.gb.kind == "box" else "c15:reported-depth-below-true-depth",
+                         "reported depth %.17g, but every searched direction (the reported normal included) leaves an overlap of at least "
+                         "%.17g; along the reported normal the overlap is %.17g (Lean-evaluated): moving geom 1 by the reported depth does not "
+                         "separate the geoms by >= %.3g (tolerance %.3g)" % (depth, ovc, bound, -exc, LOW_REL * sc + PEN_ABS), c)
                 elif not okp:
                     fail("c15:penetration-not-certified",
                          "reported depth %.17g but the overlap along the reported normal is %.17g (gap %.3g > %.3g): moving along the reported "
@@ -959,7 +969,8 @@ def run(ctx):
     ctx.extra["pair_cases"] = len(cases)
     ctx.extra["claims_checked"] = stats.get("claims")
     ctx.extra["tolerances"] = {"sep": "(%g if witness points valid (k-1 <= %g) else %g)*scale + %g" % (SEP_REL_VALID, K_VALID, SEP_REL_LOOSE, SEP_ABS),
-                               "pen_normal_gap": "%g*scale + %g" % (PEN_REL, PEN_ABS), "depth_refutation": "%g*scale + %g" % (REF_REL, REF_ABS),
+                               "pen_normal_gap": "%g*scale + %g" % (PEN_REL, PEN_ABS), "depth_too_large(refutation)": "%g*scale + %g" % (REF_REL, REF_ABS),
+                               "depth_too_small": "%g*scale + %g" % (LOW_REL, PEN_ABS),
                                "touch": "%g*scale + %g" % (TOUCH_REL, TOUCH_ABS), "scale": "rbound(A) + rbound(B) + centre distance"}
     ctx.extra["max_observed"] = {k: [float("%.3g" % v[0]), v[1]] for k, v in sorted(stats.get("max_rel", {}).items())}
     ctx.extra["case_distribution"] = stats.get("cases")
@@ -1007,4 +1018,8 @@ DIRECTED += [
      'pair cylinder 3fd7275475520946 3fd7275475520946 0000000000000000 bfbf2d2ade9b5b80 bfc07ff0dd03abb5 bf8e354be5950a80 3fe6a09e667f3bcd 0000000000000000 0000000000000000 3fe6a09e667f3bcd ellipsoid 3fb3f259e566ab7a 3fc2b0e324ed9ea6 3f8979395abba259 bfbf2d2ade9b5b78 bfe45fdf3b06eca1 bf8e354be5950a80 0000000000000000 3ff0000000000000 0000000000000000 0000000000000000 3eb0c6f7a0b5ed8d 1000 4202a05f20000000 3ff253969527d1af 0000000000000000'),
     ('c15:epa-depth-for-touching-geoms', 'directed:touching box / cylinder',
      'pair box 3f86b27067ecad0f 3f86b27067ecad0f 3f62a52fb6af3528 3f7ceaa604b3368a 3f9f07a4c94e4102 3fb8544dd65dcc8d 3fe6a09e667f3bcd 0000000000000000 0000000000000000 3fe6a09e667f3bcd cylinder 3f906ab8201357b7 3f906ab8201357b7 0000000000000000 3f7ceaa604b3368a 3f9f07a4c94e4102 3fbd04255c308a6c 0000000000000000 3ff0000000000000 0000000000000000 0000000000000000 3eb0c6f7a0b5ed8d 1000 4202a05f20000000 4202a05f20000000 3ef09b5688b4e904'),
+]
+DIRECTED += [
+    ('c15:box-box-depth-underestimated', 'directed:deep box-box (mjc_ccd in distance mode)',
+     'pair box 3fecf82748a91092 3fecf82748a91092 4010000000000000 3fc7bdba713438e6 bfeabc7e456001c1 bfe08d1c3277d0a6 3fc00e05f0c6b4ca bfde6ae5b78e49ea bf9d63420d223e4b bfebda238da6e017 box 3ff0000000000000 3ff0000000000000 4010000000000000 400116085d55c8cc bffdbc9e2628c380 bfff7e41f8e9475b 3fe2f82023025622 bfdc6451555b34a4 bfe581e8b30e431b 3f81419f2b6b8849 3eb0c6f7a0b5ed8d 1000 4202a05f20000000 400337c17e3750a1 3f7133e867684b24'),
 ]
